@@ -458,6 +458,71 @@ class AdvTr(RangeTextTr):
         return super().block(stmts, env, fall)
 
 
+class RelTr(AdvTr):
+    """The relation converters of `DebianVersionRange` and `RpmVersionRange` (`split`, `build_constraint_from_string`,
+    `from_native`, `from_natives`): `cls` is the class being translated (its `vers_by_native_comparators` is the
+    regenerated table of that class, its `version_class` the parameter `mk`), the range built is its constraint list."""
+    hdr = "(mk : List Char → Except TErr (List Char))"
+    hargs = "mk"
+    mkarg = "mk"
+    clsname = None
+    prefix = None
+
+    def expr(self, node, env):
+        fn = self.fn
+        is_cls = lambda n: isinstance(n, ast.Name) and n.id == "cls" and "cls" not in env   # noqa: E731
+        if isinstance(node, ast.Attribute) and is_cls(node.value) and node.attr == "vers_by_native_comparators":
+            return '(nativeDictE "%s")' % self.clsname, "Dict", False
+        if isinstance(node, ast.Call):
+            f = node.func
+            kw = {k.arg: k.value for k in node.keywords}
+            if isinstance(f, ast.Name) and f.id == "split_req" and not node.args and {"string", "comparators"} <= set(kw) \
+                    and set(kw) <= {"string", "comparators", "default", "strip"}:
+                dt, dty, dp = self.expr(kw["comparators"], env)
+                if dty == "Dict" and not dp:
+                    st, sty, sp = self.expr(kw["string"], env)
+                    df, dfty, dfp = self.expr(kw["default"], env) if "default" in kw else ("none", "None", True)
+                    sr, srty, srp = self.expr(kw["strip"], env) if "strip" in kw else (lit(""), "Str", True)
+                    if dfty == "Str":
+                        df, dfty = "(some %s)" % df, "StrOpt"
+                    if sty == "Str" and dfty in ("None", "StrOpt") and srty == "Str" and sp and dfp and srp:
+                        v = fn.tmp()
+                        return "(%s >>= fun %s => py_split_req %s %s %s %s %s)" % (dt, v, self.mkarg, st, v, df, sr), "OptPair", False
+            if isinstance(f, ast.Attribute) and is_cls(f.value) and len(node.args) == 1 and not kw:
+                t, ty, p = self.expr(node.args[0], env)
+                if ty == "Str" and p:
+                    if f.attr == "version_class":
+                        return "(mk %s)" % t, "Str", False
+                    if f.attr == "split":
+                        return "(%s_split mk %s)" % (self.prefix, t), "OptPair", False
+                    if f.attr == "build_constraint_from_string":
+                        return "(%s_build_constraint mk %s)" % (self.prefix, t), "TCon", False
+                    if f.attr == "from_native":
+                        return "(%s_from_native mk %s)" % (self.prefix, t), "TConList", False
+            if is_cls(f) and not node.args and set(kw) == {"constraints"}:
+                a = kw["constraints"]
+                if isinstance(a, ast.List) and len(a.elts) == 1:
+                    t, ty, p = self.expr(a.elts[0], env)
+                    if ty == "TCon":
+                        if p:
+                            return "[%s]" % t, "TConList", True
+                        v = fn.tmp()
+                        return "(%s >>= fun %s => .ok [%s])" % (t, v, v), "TConList", False
+                t, ty, p = self.expr(a, env)
+                if ty == "TConList" and p:
+                    return t, "TConList", True
+        if isinstance(node, ast.ListComp) and len(node.generators) == 1 and not node.generators[0].ifs \
+                and isinstance(node.generators[0].target, ast.Name):
+            it, ity, ip = self.expr(node.generators[0].iter, env)
+            if ity == "StrList" and ip:
+                env2 = dict(env)
+                env2[node.generators[0].target.id] = "Str"
+                t, ty, p = self.expr(node.elt, env2)
+                if ty == "TCon" and not p:
+                    return "(%s.mapM (fun %s => %s))" % (it, node.generators[0].target.id, t), "TConList", False
+        return super().expr(node, env)
+
+
 def _ascii_idiom(node):
     """`len(x) + 2 == len(ascii(x))` -> the node x, else None"""
     try:
@@ -496,6 +561,17 @@ JOBS = [
      [("vers", "Str"), ("simplify", "Bool"), ("validate", "Bool")], "TRange", ["PyTextConFromString"]),
     ("version_range.py", "__str__", "VersionRange", "PyTextRangeStr", "vr_str", [("self", "TRangeS")], "Str", ["PyTextConStr"]),
     ("version_range.py", "to_dict", "VersionRange", "PyTextRangeToDict", "vr_to_dict", [("self", "TRangeS")], "RangeDict", ["PyTextConToDict"]),
+    ("version_range.py", "split", "DebianVersionRange", "PyTextDebSplit", "deb_split", [("string", "Str")], "OptPair", ["PyTextSplitReq", "Text.PyAdv"]),
+    ("version_range.py", "build_constraint_from_string", "DebianVersionRange", "PyTextDebBuild", "deb_build_constraint", [("string", "Str")], "TCon",
+     ["PyTextDebSplit"]),
+    ("version_range.py", "from_native", "DebianVersionRange", "PyTextDebFromNative", "deb_from_native", [("string", "Str")], "TConList", ["PyTextDebBuild"]),
+    ("version_range.py", "from_natives", "DebianVersionRange", "PyTextDebFromNatives", "deb_from_natives", [("strings", "StrList")], "TConList",
+     ["PyTextDebFromNative"]),
+    ("version_range.py", "build_constraint_from_string", "RpmVersionRange", "PyTextRpmBuild", "rpm_build_constraint", [("string", "Str")], "TCon",
+     ["PyTextSplitReq", "Text.PyAdv"]),
+    ("version_range.py", "from_native", "RpmVersionRange", "PyTextRpmFromNative", "rpm_from_native", [("string", "Str")], "TConList", ["PyTextRpmBuild"]),
+    ("version_range.py", "from_natives", "RpmVersionRange", "PyTextRpmFromNatives", "rpm_from_natives", [("strings", "StrList")], "TConList",
+     ["PyTextRpmFromNative"]),
     ("version_range.py", "build_constraint_from_github_advisory_string", None, "PyTextGithubCon", "py_github_constraint",
      [("scheme", "Str"), ("string", "Str")], "TCon", ["PyTextSplitReq", "Text.Advisory"]),
     ("version_range.py", "build_range_from_github_advisory_constraint", None, "PyTextGithubRange", "py_github_range",
@@ -505,6 +581,7 @@ JOBS = [
 ]
 ADVISORY = {"py_github_constraint", "py_github_range", "py_snyk_range"}
 RANGE_STR = {"vr_str", "vr_to_dict"}
+REL = {"deb": "DebianVersionRange", "rpm": "RpmVersionRange"}
 
 
 def generate(src_dir):
@@ -519,8 +596,11 @@ def generate(src_dir):
                 trees[src] = ast.parse(open(os.path.join(src_dir, src)).read())
             fdef = L._find(trees[src], pyname, cls)
             # parameters the typed model does not have (`cls`, `version_class`) are not Lean parameters
+            trc = None
+            if lean.split("_")[0] in REL and cls == REL[lean.split("_")[0]]:
+                trc = type("RelTr_" + lean, (RelTr,), {"clsname": cls, "prefix": lean.split("_")[0]})
             text = L.translate_function(fdef, lean, params, ret, {}, {}, src,
-                                        tr_class=RangeTextTr if lean == "vr_from_string" else (AdvTr if lean in ADVISORY else (RangeStrTr if lean in RANGE_STR else TextTr)))
+                                        tr_class=trc or (RangeTextTr if lean == "vr_from_string" else (AdvTr if lean in ADVISORY else (RangeStrTr if lean in RANGE_STR else TextTr))))
             out.append(text)
             status["text:" + key] = "translated"
         except (Unsupported, StopIteration, OSError) as e:
